@@ -97,13 +97,11 @@ class Rule:
 
     # -- enumerated ------------------------------------------------------------------------------------
     def readings(self):
-        seen_unary, both = False, False
-        for c, _ in self.clauses:
-            if len(c) == 1:
-                seen_unary = True
-            elif seen_unary:
-                both = True
-        return ("two-first", "declared") if both else ("two-first",)
+        # the engine's propagation model is explicit (ViralPropagation/sql.py, _enumerated_case: "binary clauses first,
+        # then unary, then default"): a two-value clause wins over a one-value clause whatever the declaration order.
+        # (An earlier version of this model also accepted the declaration-order reading; that was looser than the
+        # property, which refers to the engine's model, and hid a seeded change of exactly this precedence.)
+        return ("two-first",)
 
     @staticmethod
     def _occurs(v, a, b):
